@@ -206,7 +206,7 @@ VP_HARNESS(h_payload_eq)
 VP_HARNESS(h_packet_assign_diff)
 {
     static uint8_t buf[16 + LMAXV];
-    const unsigned la = LA > 0 ? LA : 1;
+    const unsigned la = LA >= 0 ? LA : 1;  // 0: empty payloads (equality ignores their type; assignment must not)
     vp_bytes(buf, 16 + la);
     buf[12] &= 0xBF;
     buf[13] = 0x42;
@@ -221,7 +221,8 @@ VP_HARNESS(h_packet_assign_diff)
         t->setVersion(static_cast<uint8_t>(a->getVersion() + 1));
     if (which == 3)
         t->getPayload().setMessageType(CmpHeader::MessageType::data), t->getPayload().setRawPayloadType(0x43);
-    vp_assert(!(*a == *t) && (*a != *t), "C14: packets that differ in the payload's message type (or any field) are unequal");
+    if (la > 0)
+        vp_assert(!(*a == *t) && (*a != *t), "C14: packets that differ in the payload's message type (or any field) are unequal");
     *t = *a;
     vp_assert(t->getPayload().getType() == a->getPayload().getType() && t->getInterfaceId() == a->getInterfaceId() && t->getVersion() == a->getVersion() && t->getVendorId() == a->getVendorId(),
               "C14: assignment makes the target equal to the source even when the two looked alike before");
